@@ -91,7 +91,9 @@ def run(ctx):
         ctx.spec_drift(drift)
 
     # ---- (M) dense small scope
-    dense = range(0, 15 if quick else 21)
+    # dense clock plus instants two, three and four scaled hours (= one and two scaled days) later:
+    # idle gaps / forward clock jumps of k >= 2 whole periods
+    dense = list(range(0, 15 if quick else 21)) + ([25, 37, 49] if quick else [24, 25, 36, 37, 48, 49])
     small = dict(N=3, D=2, HourU=12, DayU=24, Times=dense, RL=("1,2" if quick else "0,1,2"), HL="0,2", DL=("0" if quick else "0,3"), MaxReq=4, MaxUpd=1)
     ex_small = min(shapes["minute"]["extra"], 1)
     cur = ctx.tlc("ratelimit", "RateLimit", "MC_cur.cfg", files={"MC_cur.cfg": cfg(Extra=ex_small, rab=rab, inv=(INV if quick else ALLINV), **small)},
@@ -125,7 +127,7 @@ def run(ctx):
         "negative_controls_rejected": ctl,
         "vacuity": "action firing is established on the generated schedules (req/upd/outcome counts in tlc_generation)",
         "window_only_5_requests_clock_0_26": (None if deep is None else {"distinct": deep.distinct, "generated": deep.generated, "depth": deep.depth}),
-        "scope": "3 slots x 2 units, hour = 12 units, day = 24 units, dense clock 0..%d, %d requests, 1 policy update" % (max(dense), small["MaxReq"])})
+        "scope": "3 slots x 2 units, hour = 12 units, day = 24 units, dense clock 0..%d plus gaps of 2-4 hours, %d requests, 1 policy update" % (max(d for d in dense if d < 24), small["MaxReq"])})
     ctx.log("TLC dense small scope: code as it is (extra=%d, reset_at_boundary=%s) -> %s (%d distinct); negative controls rejected: %s"
             % (ex_small, rab, "violates " + cur.violated if cur.violated else "holds", cur.distinct, sorted(ctl) or "n/a"))
 
@@ -169,14 +171,14 @@ def run(ctx):
     n, ex = shapes["minute"]["n"], shapes["minute"]["extra"]
     H, Dy = 3600 * D, 86400 * D
     around = lambda x: [x - 1, x, x + 1]
-    ht = [1, 2 * D] + around(H) + [H + H // 2] + around(2 * H)
+    ht = [1, 2 * D] + around(H) + [H + H // 2] + around(2 * H) + [3 * H + 1, 5 * H + 1]   # idle gaps of 1, 2 and 4 whole hours
     sp, cnt, dist, outs = gen("hourquota", "hourquota", N=n, Extra=ex, rab=rab, HourU=H, DayU=Dy, Times=ht, RL="0", HL="1,2", DL="0",
                               MaxReq=4 if quick else 5, MaxUpd=1)
     if outs.get("quota", 0) == 0:
         raise InfraError("hour-quota schedules are vacuous: %s" % outs)
     fams.append({"name": "hourquota", "kind": "minute", "d": D, "file": sp})
     gnotes["hourquota"] = {"schedules": cnt, "distinct": dist, "predicted_outcomes": outs}
-    dt = [1, H] + around(Dy) + [Dy + H] + around(2 * Dy)
+    dt = [1, H] + around(Dy) + [Dy + H] + around(2 * Dy) + [3 * Dy + 1, 5 * Dy + 1]   # idle gaps of 1, 2 and 4 whole days
     sp, cnt, dist, outs = gen("dayquota", "dayquota", N=n, Extra=ex, rab=rab, HourU=H, DayU=Dy, Times=dt, RL="0", HL="0,2", DL="1,2",
                               MaxReq=4 if quick else 5, MaxUpd=1)
     if outs.get("quota", 0) == 0:
@@ -184,12 +186,15 @@ def run(ctx):
     fams.append({"name": "dayquota", "kind": "minute", "d": D, "file": sp})
     gnotes["dayquota"] = {"schedules": cnt, "distinct": dist, "predicted_outcomes": outs}
     W = n * D
-    ct = [0, 1, D, W - 1, W, W + 1] + around(H)
+    ct = [0, 1, D, W - 1, W, W + 1] + around(H) + [3 * H + 1]
     sp, cnt, dist, outs = gen("combined", "combined", N=n, Extra=ex, rab=rab, HourU=H, DayU=Dy, Times=ct, RL="1,2", HL="1,2", DL="0",
                               MaxReq=4 if quick else 5, MaxUpd=0 if quick else 1)
     if outs.get("rate", 0) == 0 or outs.get("quota", 0) == 0:
         raise InfraError("combined schedules are vacuous: %s" % outs)
     fams.append({"name": "combined", "kind": "minute", "d": D, "file": sp})
+    # the same schedules once more with a usage lookup around every request (RateRejectFree on real code);
+    # every other family leaves the quota tracker untouched between requests
+    fams.append({"name": "combined", "kind": "minute", "d": D, "file": sp, "probe": True})
     gnotes["combined"] = {"schedules": cnt, "distinct": dist, "predicted_outcomes": outs}
     ctx.note("tlc_generation", gnotes)
     ctx.note("exhaustive", True)
@@ -210,7 +215,7 @@ def run(ctx):
     ctx.note("concurrent_stress", r["concurrent"])
     for smp in r.get("samples") or []:
         ctx.sample(smp)
-    ctx.assume("the clock does not run backwards (forward jumps of any size are explored)")
+    ctx.assume("the clock does not run backwards (forward jumps / idle gaps up to 4 whole hours and 4 whole days are explored; with a backward step the window and the clock hour of earlier admits are ambiguous, so it is not judged)")
     ctx.assume("limits change value but a check is never switched between unlimited (0) and limited by an update")
     ctx.assume("api/query.go calls CheckRateLimit before CheckQuota; the driver replays that order (checked textually, not executed)")
     ctx.assume("DeletePolicy (which discards the token's counters) is outside the explored operations")
